@@ -59,7 +59,46 @@ func c02Witness(w *core.WorkerCtx) {
 	w.R.Sample(2, map[string]any{"witness": world.Desc, "operations": world.Trace})
 }
 
+// c02Wrap: a wallet that owns nearly the whole 2^64-1 supply spends in two steps whose whole parts add up to exactly
+// 2^64-1 while the fractional parts carry: the running total of its spends sits on the wrap-around boundary. The second
+// spend exceeds what is left and must not be confirmed.
+func c02Wrap(w *core.WorkerCtx) {
+	rng := core.Rand(w.Seed, "C02wrap")
+	desc := "c02 spends whose total sits on the 2^64 boundary: supply (2^64-1).999..., spend 2^63.6, then (2^63-1).5"
+	world := ledger.NewWorld(rng, w.R, []string{"C02", "C01"}, allSnapOracles, desc)
+	defer world.Close()
+	if _, err := ledger.Setup(world, ledger.Profile{Nodes: 2, Users: 4, SupplyClass: 2, Delivery: "lockstep"}); err != nil {
+		w.R.Inconc("wrap witness setup failed: " + err.Error())
+		return
+	}
+	n0, n1 := world.Nodes[0], world.Nodes[1]
+	u := world.Users
+	step := func(amt spice.Melange, what string) {
+		t := world.NewTrx(u[0], u[1].Addr, amt, nil)
+		if v, err := world.Propose(n0, &t, what); err == nil {
+			world.Deliver(n1, &v, "net")
+		}
+		for i := 0; i < 2; i++ {
+			m := world.NewTrx(u[2], u[3].Addr, spice.Melange{}, []byte("confirm"))
+			if v, err := world.Propose(n0, &m, "confirm"); err == nil {
+				world.Deliver(n1, &v, "net")
+			}
+		}
+	}
+	step(spice.Melange{Currency: 1 << 63, SupplementaryCurrency: 6 * (ledger.E18 / 10)}, "first spend 2^63.6")
+	step(spice.Melange{Currency: 1<<63 - 1, SupplementaryCurrency: 5 * (ledger.E18 / 10)}, "second spend (2^63-1).5: whole parts now add up to 2^64-1 with a carry")
+	step(spice.Melange{Currency: 1<<63 - 1, SupplementaryCurrency: 4 * (ledger.E18 / 10)}, "third spend (2^63-1).4: exactly what is left plus 0.000000000000000001 less")
+	for _, n := range world.Nodes {
+		world.CheckConservation(n)
+	}
+	world.NontrivFor("C02", "wrap-boundary-witness")
+	world.EvalFor("C02", 1)
+}
+
 func c02Worker(w *core.WorkerCtx) {
+	if w.Batch == 1 {
+		c02Wrap(w)
+	}
 	if w.Batch == 0 {
 		c02Witness(w)
 	}
@@ -209,7 +248,70 @@ func c06Notary(w *core.WorkerCtx) {
 	}
 }
 
+// c06Drained: a wallet is funded, the funding is checkpointed by a first truncation, the wallet spends everything, and a
+// second truncation checkpoints that spend: its checkpointed funds must drop to exactly zero and every balance answer
+// with them (a single chain, so the truncations always start from the one tip).
+func c06Drained(w *core.WorkerCtx) {
+	rng := core.Rand(w.Seed, "C06drained")
+	desc := "c06 drained wallet: D funded 7.25, 1020 vertices, truncation, D spends 7.25, 1020 vertices, truncation, balance of D"
+	world := ledger.NewWorld(rng, w.R, []string{"C06"}, allSnapOracles, desc)
+	defer world.Close()
+	d, err := ledger.Setup(world, ledger.Profile{Nodes: 1, Users: 4, SupplyClass: 0, Delivery: "lockstep"})
+	if err != nil {
+		w.R.Inconc("setup failed: " + err.Error())
+		return
+	}
+	n := world.Nodes[0]
+	u := world.Users
+	grow := func(k int) {
+		world.Quiet = true
+		for i := 0; i < k; i++ {
+			t := world.NewTrx(u[0], u[1+i%2].Addr, spice.Melange{SupplementaryCurrency: uint64(1 + i%9)}, nil)
+			world.Propose(n, &t, "grow")
+		}
+		world.Quiet = false
+		world.Observe(n, ledger.OpInfo{Kind: "milestone", OK: true})
+	}
+	f := world.NewTrx(u[0], u[3].Addr, spice.Melange{Currency: 7, SupplementaryCurrency: ledger.E18 / 4}, nil)
+	fv, err := world.Propose(n, &f, "fund D")
+	if err != nil {
+		w.R.Inconc("funding failed")
+		return
+	}
+	grow(1020)
+	for a := 0; a < 3; a++ {
+		world.TruncateChecked(n, d, false)
+		if _, ok := n.Prev.Stored[fv.Hash]; ok {
+			break
+		}
+		grow(60)
+	}
+	sp := world.NewTrx(u[3], u[0].Addr, spice.Melange{Currency: 7, SupplementaryCurrency: ledger.E18 / 4}, nil)
+	sv, err := world.Propose(n, &sp, "D spends everything")
+	if err != nil {
+		w.R.Note("drained wallet: the spend was refused: " + err.Error())
+		return
+	}
+	grow(1020)
+	for a := 0; a < 3; a++ {
+		world.TruncateChecked(n, d, false)
+		if _, ok := n.Prev.Stored[sv.Hash]; ok {
+			break
+		}
+		grow(60)
+	}
+	_, drained := n.Prev.Stored[sv.Hash]
+	addrs := append(world.AllAddresses(), ledger.NewActor("never-seen").Addr)
+	world.CheckBalances(n, addrs)
+	world.NontrivFor("C06", fmt.Sprintf("drained-wallet/spend-checkpointed=%v", drained))
+	world.EvalFor("C06", 1)
+	w.R.Count("c06_drained_wallet_scenarios", 1)
+}
+
 func c06Worker(w *core.WorkerCtx) {
+	if w.Batch == 2 {
+		c06Drained(w)
+	}
 	if w.Batch == 1 {
 		c06Notary(w)
 	}
